@@ -23,18 +23,19 @@ import (
 type codeTarget struct {
 	dir string // relative to the repository root
 	mod string // Coq module (file) name
+	core bool  // core.go: the package gets the fourth pass (Gen/Parse/<mod>Core.v)
 }
 
 func codeTargets() []codeTarget {
 	var out []codeTarget
 	for _, e := range ecosystems() {
-		out = append(out, codeTarget{"pkg/ecosystem/" + e, strings.ToUpper(e[:1]) + e[1:]})
+		out = append(out, codeTarget{"pkg/ecosystem/" + e, strings.ToUpper(e[:1]) + e[1:], false})
 	}
 	if _, err := os.Stat(filepath.Join(repo, "pkg/spec/vers")); err == nil {
-		out = append(out, codeTarget{"pkg/spec/vers", "SpecVers"})
+		out = append(out, codeTarget{"pkg/spec/vers", "SpecVers", true})
 	}
 	if _, err := os.Stat(filepath.Join(repo, "cmd")); err == nil {
-		out = append(out, codeTarget{"cmd", "Cmd"})
+		out = append(out, codeTarget{"cmd", "Cmd", true})
 	}
 	return out
 }
@@ -158,6 +159,10 @@ type funcInfo struct {
 	errRes   bool     // parse.go: the last result is `error`; rtype is `option <values>`
 	nvals    int      // parse.go: number of results before the error
 	codeVars []string // Section variables of Gen/Code the definition depends on, in section order
+	// core.go
+	tparams []string       // names of the type parameters (generic function)
+	dropped map[int]string // parameters that are abstract receivers (interface values): index -> prefix of their method variables
+	writers []int          // parameters of type io.Writer (output accumulators), by index
 }
 
 type codePkg struct {
@@ -173,6 +178,8 @@ type codePkg struct {
 	globals map[string]bool
 	wide    bool // loops.go: rune -> Z, byte -> ascii are inside the fragment
 	errs    bool // parse.go: (T, error) results are inside the fragment (option T)
+	core    bool // core.go: type parameters, local struct types, local maps, function values, io.Writer
+	foreign map[string]string // core.go: abstract types of other packages met so far (Coq name -> Go type)
 }
 
 var coqReserved = map[string]bool{}
@@ -206,6 +213,11 @@ func (cp *codePkg) position(p token.Pos) string {
 // ---------- types ----------
 
 func (cp *codePkg) trType(t types.Type) (string, error) {
+	if cp.core {
+		if s, ok, err := cp.coreType(t); ok || err != nil {
+			return s, err
+		}
+	}
 	switch u := t.(type) {
 	case *types.Basic:
 		switch u.Kind() {
@@ -317,6 +329,11 @@ func (cp *codePkg) structOf(t types.Type) *structInfo {
 }
 
 func (cp *codePkg) zero(t types.Type) (string, error) {
+	if cp.core {
+		if s, ok := cp.coreZero(t); ok {
+			return s, nil
+		}
+	}
 	switch u := types.Unalias(t).(type) {
 	case *types.Basic:
 		switch u.Kind() {
@@ -1025,6 +1042,9 @@ func (t *fnTr) assignedOuter(ss [][]ast.Stmt, lo, hi token.Pos) []types.Object {
 	seen := map[types.Object]bool{}
 	add := func(e ast.Expr) {
 		id, ok := e.(*ast.Ident)
+		if !ok && t.cp.core {
+			id, ok = coreAssignRoot(t.cp.info, e)
+		}
 		if !ok || id.Name == "_" {
 			return
 		}
@@ -1051,6 +1071,11 @@ func (t *fnTr) assignedOuter(ss [][]ast.Stmt, lo, hi token.Pos) []types.Object {
 				case *ast.ExprStmt:
 					if t.cp.errs { // parse.go: b.WriteString(..) assigns the accumulator b
 						if id, _, _ := builderWrite(t.cp.info, a); id != nil {
+							add(id)
+						}
+					}
+					if t.cp.core { // core.go: slices.SortFunc(xs, ..) assigns xs, fmt.Fprintf(w, ..) the accumulator w
+						if id := coreStmtTarget(t.cp.info, a); id != nil {
 							add(id)
 						}
 					}
@@ -1611,6 +1636,7 @@ func loadCodePkg(tgt codeTarget, fset *token.FileSet, imp *repoImporter) (*codeP
 		Defs:       map[*ast.Ident]types.Object{},
 		Uses:       map[*ast.Ident]types.Object{},
 		Selections: map[*ast.SelectorExpr]*types.Selection{},
+		Instances:  map[*ast.Ident]types.Instance{},
 	}
 	var firstErr error
 	conf := types.Config{Importer: imp, Error: func(e error) {
@@ -1701,8 +1727,13 @@ func (cp *codePkg) signature(fi *funcInfo) {
 	sig := fi.obj.Type().(*types.Signature)
 	why := func(s string) { fi.sigOK = false; fi.sigWhy = s }
 	if sig.TypeParams().Len() > 0 || sig.RecvTypeParams().Len() > 0 {
-		why("generic function")
-		return
+		if !cp.core || sig.RecvTypeParams().Len() > 0 {
+			why("generic function")
+			return
+		}
+		for i := 0; i < sig.TypeParams().Len(); i++ {
+			fi.tparams = append(fi.tparams, mangleGlobal(sig.TypeParams().At(i).Obj().Name()))
+		}
 	}
 	if sig.Variadic() {
 		why("variadic function")
@@ -1719,7 +1750,20 @@ func (cp *codePkg) signature(fi *funcInfo) {
 	for i := 0; i < sig.Params().Len(); i++ {
 		vars = append(vars, sig.Params().At(i))
 	}
-	for _, v := range vars {
+	for i, v := range vars {
+		if cp.core {
+			if pre, ok := cp.abstractParam(fi, v); ok {
+				if fi.dropped == nil {
+					fi.dropped = map[int]string{}
+				}
+				fi.dropped[i] = pre
+				fi.ptypes = append(fi.ptypes, "")
+				continue
+			}
+			if isWriterType(v.Type()) {
+				fi.writers = append(fi.writers, i)
+			}
+		}
 		ct, err := cp.trType(v.Type())
 		if err != nil {
 			why("parameter of " + err.Error())
@@ -1730,6 +1774,17 @@ func (cp *codePkg) signature(fi *funcInfo) {
 	if sig.Results().Len() == 0 {
 		why("no result")
 		return
+	}
+	if len(fi.writers) > 0 {
+		defer func() {
+			if fi.sigOK {
+				if fi.errRes {
+					fi.sigOK, fi.sigWhy = false, "io.Writer parameter together with an error result"
+					return
+				}
+				fi.rtype = "(" + strings.Repeat("bytes * ", len(fi.writers)) + strings.TrimSuffix(strings.TrimPrefix(fi.rtype, "("), ")") + ")"
+			}
+		}()
 	}
 	if cp.errs && isErrorType(sig.Results().At(sig.Results().Len()-1).Type()) {
 		// parse.go: (T1, .., Tn, error) is option (T1 * .. * Tn); n = 0: option unit
@@ -1797,6 +1852,9 @@ func (cp *codePkg) signature(fi *funcInfo) {
 func (fi *funcInfo) coqType() string {
 	var p []string
 	for _, t := range fi.ptypes {
+		if t == "" { // core.go: an abstract receiver, not a parameter of the translation
+			continue
+		}
 		p = append(p, t)
 	}
 	p = append(p, fi.rtype)
@@ -1846,6 +1904,7 @@ type snapItem struct {
 	name  string
 	calls []string
 	text  string // the whole item, header included
+	line  int    // position in the snapshot file (core.go: fallback variables keep their order)
 }
 
 // items of a generated file: an item starts at a line "(*@ kind name ..." and ends before the
@@ -1861,7 +1920,7 @@ func parseSnapItems(src string) map[string]*snapItem {
 		if len(f) < 3 {
 			continue
 		}
-		it := &snapItem{kind: f[1], name: f[2]}
+		it := &snapItem{kind: f[1], name: f[2], line: i}
 		if k := strings.Index(lines[i], "calls:"); k >= 0 {
 			rest := strings.TrimSuffix(strings.TrimSpace(lines[i][k+6:]), "*)")
 			it.calls = strings.Fields(rest)
